@@ -43,6 +43,24 @@ fn main() {
     if args.is_empty() {
         usage();
     }
+    if std::env::var("SIM_LOG").is_ok() {
+        // debugging aid: the log lines of the code under test on stderr (never set by the checks)
+        struct StderrLog;
+        impl log::Log for StderrLog {
+            fn enabled(&self, _: &log::Metadata) -> bool {
+                true
+            }
+            fn log(&self, r: &log::Record) {
+                if r.target().starts_with("teos") || r.target().starts_with("watchtower") {
+                    eprintln!("[log {} {}] {}", r.level(), r.target(), r.args());
+                }
+            }
+            fn flush(&self) {}
+        }
+        static L: StderrLog = StderrLog;
+        let _ = log::set_logger(&L);
+        log::set_max_level(log::LevelFilter::Debug);
+    }
     let code = match args[0].as_str() {
         "check" => check::cmd_check(&args[1..]),
         "worker" => check::cmd_worker(&args[1..]),
